@@ -22,7 +22,7 @@
 (* each property family explores exactly the histories its quantifier      *)
 (* names; `hist` is the replay vector handed to the real code.             *)
 (***************************************************************************)
-EXTENDS Judge, Json
+EXTENDS Judge, Boundary, Json
 
 CONSTANTS Shapes,    \* sequence of [id, d, cfg, root]
           Script,    \* sequence of action names
@@ -53,7 +53,7 @@ At(e) == pc <= Len(Script) /\ Script[pc] = e /\ ~pn
 
 \* a transition: event e with argument arg leading to (o2, t2) with diagnostics d2 / panic p2
 Do(e, arg, o2, t2, d2, p2) ==
-  LET j == Judge(e, Props, M, M.tt, aux, [pobj |-> obj, ptf |-> tf, obj |-> o2, tf |-> t2, dg |-> d2, pn |-> p2, conv |-> TRUE])
+  LET j == Judge(e, Props, M, M.tt, aux, [pobj |-> obj, ptf |-> tf, obj |-> o2, tf |-> t2, dg |-> d2, pn |-> p2, conv |-> TRUE, hooks |-> <<>>])
   IN /\ pc' = pc + 1 /\ hist' = Append(hist, Step(e, arg))
      /\ obj' = o2 /\ tf' = t2 /\ dg' = d2 /\ pn' = p2
      /\ viol' = viol \cup j.viol
@@ -71,7 +71,9 @@ CopyTo == At("CopyTo") /\ LET r == ToMsg(Mi, obj, tf) IN Do("CopyTo", NoArg, obj
 CopyFrom == At("CopyFrom") /\ LET r == FromMsg(Mi, tf, obj) IN Do("CopyFrom", NoArg, r.obj, tf, r.dg, r.pn)
 
 \* data the scripts choose from (a model configuration may narrow them)
-ObjChoices == IF ObjMode = "prior" THEN PriorVals(M, Deep) ELSE MsgVals(M, Deep, FALSE)
+ObjChoices == CASE ObjMode = "prior" -> PriorVals(M, Deep)
+                 [] ObjMode = "boundary" -> BoundaryVals(M)
+                 [] OTHER -> MsgVals(M, Deep, FALSE)
 PlanChoices == {DecodedForm(p) : p \in {q \in MsgPlans(M, FALSE, FALSE) : C08Plan(M, q)}}
 RawChoices == CASE RawMode = "corrupt" -> Corrupted(M, Deep)
                 [] RawMode = "reduced" -> Reduced(M, Deep)
